@@ -112,6 +112,7 @@ func TestRaceStress(t *testing.T) {
 			t.Fatal(err)
 		}
 		ng := r.Range(8, 32)
+		gun := make(chan struct{}) // all goroutines of a round start together
 		var wg sync.WaitGroup
 		var rmu sync.Mutex
 		readBad := ""
@@ -120,6 +121,7 @@ func TestRaceStress(t *testing.T) {
 			wg.Add(1)
 			go func(gr *Rng) {
 				defer wg.Done()
+				<-gun
 				lastSeen := map[string]uint64{}
 				for k := 0; k < 6; k++ {
 					ld := w.Logs[gr.IntN(len(w.Logs))]
@@ -157,6 +159,7 @@ func TestRaceStress(t *testing.T) {
 				}
 			}(gr)
 		}
+		close(gun)
 		wg.Wait()
 		if readBad != "" {
 			t.Fatalf("C05 race stress: %s", readBad)
